@@ -46,18 +46,21 @@ def _load_all(text):
     return out
 
 
-def dump_tu(name, source_text, extra_flags=()):
-    """Return list of top-level JSON decl nodes for the synthetic TU `source_text`."""
+def dump_tu(name, source_text, extra_flags=(), filters=("opentelemetry",)):
+    """Return list of top-level JSON decl nodes for the synthetic TU `source_text` (one clang run per name filter)."""
     os.makedirs(os.path.join(WORK, "ast"), exist_ok=True)
     tu = os.path.join(WORK, "ast", name + ".cc")
     with open(tu, "w") as f:
         f.write(source_text)
-    cmd = ["clang++"] + CLANG_FLAGS + list(extra_flags) + [
-        "-Xclang", "-ast-dump=json", "-Xclang", "-ast-dump-filter=opentelemetry", tu]
-    p = subprocess.run(cmd, stdout=subprocess.PIPE, stderr=subprocess.PIPE, text=True)
-    if p.returncode != 0:
-        raise ExtractionError("clang failed on %s:\n%s" % (tu, p.stderr[-4000:]))
-    return _load_all(p.stdout)
+    roots = []
+    for flt in filters:
+        cmd = ["clang++"] + CLANG_FLAGS + list(extra_flags) + [
+            "-Xclang", "-ast-dump=json", "-Xclang", "-ast-dump-filter=" + flt, tu]
+        p = subprocess.run(cmd, stdout=subprocess.PIPE, stderr=subprocess.PIPE, text=True)
+        if p.returncode != 0:
+            raise ExtractionError("clang failed on %s:\n%s" % (tu, p.stderr[-4000:]))
+        roots += _load_all(p.stdout)
+    return roots
 
 
 OPNAMES = {
@@ -107,6 +110,7 @@ class Index:
         self.vars = {}          # qualified name -> VarDecl
         self.enums = {}
         self.typedefs = {}      # qualified name -> underlying type dict
+        self.ns_alias = {}      # namespace alias name -> aliased namespace name
         for r in roots:
             self._walk(r, [], None)
         # second pass: out-of-line method definitions
@@ -159,6 +163,10 @@ class Index:
             for c in n.get("inner", []):
                 self._walk(c, path + [name], nid)
             return
+        if k == "NamespaceAliasDecl":
+            tgt = n.get("aliasedNamespace", {}).get("name")
+            if tgt:
+                self.ns_alias[n.get("name")] = tgt
         if k == "VarDecl":
             q = "::".join(path + [n.get("name", "")])
             self.qual[nid] = q
@@ -219,6 +227,16 @@ class Index:
                     cand.get("previousDecl") == decl_id:
                 return cand
         return d
+
+    def lookup_by_name_sig(self, name, qualtype):
+        """a function referenced from another clang run of the same TU (ids differ between runs)"""
+        hits = []
+        for q, lst in self.funcs.items():
+            if q.split("::")[-1] == name:
+                for d in lst:
+                    if d.get("type", {}).get("qualType") == qualtype:
+                        hits.append(d)
+        return hits[0] if len(hits) == 1 else None
 
     def find_function(self, qname, nparams=None, sig=None):
         """Locate exactly one function definition. qname matches as a '::'-suffix."""
